@@ -479,6 +479,7 @@ int main(int argc, char ** argv)
       for (long k = c.from; k < c.from + c.cases; k++) { vh::begin_case(k); RunIsolateCase(k, vh::case_seed(c.seed, STREAM_ISOLATE, (uint64_t)k)); }
    } else if (mode == "cut") {
       for (long k = c.from; k < c.from + c.cases; k++) { vh::begin_case(k); RunCutCase(k, c.seed); }
+      g_stream = StreamSpec();   // its MessageRefs must be gone before the Message pool is destroyed
    } else { fprintf(stderr, "h_isolate: unknown mode %s\n", mode.c_str()); return 3; }
    return vh::finish();
 }
